@@ -14,9 +14,18 @@ def h(u):
     return u.encode().hex() or '-'
 
 
-def build_rq(ctxs, called='SRV', calling='CLI'):
+def echo_fields(ctxs):
+    """AE titles and application context name of the request, varied with the request (the reply must repeat them)"""
+    k = sum(c[0] for c in ctxs) + len(ctxs)
+    called = ['SRV', 'S', 'SIXTEEN_CHARS_AE', 'A B'][k % 4]
+    calling = ['CLI', 'SIXTEEN_CHARS_XX', 'C', 'X_1'][(k // 4) % 4]
+    appctx = ['1.2.840.10008.3.1.1.1', '1.2.840.10008.3.1.1.1', '1.2.826.0.1.3680043.2.1', '1.2.3'][(k // 2) % 4]
+    return called, calling, appctx
+
+
+def build_rq(ctxs, called='SRV', calling='CLI', appctx='1.2.840.10008.3.1.1.1'):
     from pynetdicom2 import pdu, userdataitems as ud
-    items = [pdu.ApplicationContextItem('1.2.840.10008.3.1.1.1')]
+    items = [pdu.ApplicationContextItem(appctx)]
     for cid, a, tss in ctxs:
         items.append(pdu.PresentationContextItemRQ(cid, pdu.AbstractSyntaxSubItem(a), [pdu.TransferSyntaxSubItem(t) for t in tss]))
     items.append(pdu.UserInformationItem([ud.MaximumLengthSubItem(16384), ud.ImplementationClassUIDSubItem('1.2.3')]))
@@ -30,10 +39,15 @@ def run_accept(served, supported, ctxs):
 
     def service(asce, ctx, msg):
         calls.append((ctx.id, str(ctx.sop_class), str(ctx.supported_ts)))
-    ae = types.SimpleNamespace(supported_scp={a: service for a in served}, supported_ts=frozenset(supported), timeout=1,
-                               store_in_file=set(), get_file=None)
+    # the entity is configured the way an application does it: the real constructor and the real add_scp
+    from pynetdicom2 import applicationentity as aem
+    ae = aem.AEBase(list(supported), 16384)
+    ae.timeout = 1
+    service.sop_classes = list(served)
+    if served:
+        aem.AE.add_scp(ae, service)
     acc = msgs.real_acceptor(ae)          # the real __init__: a new acceptor per association, as the server does
-    rq = pdu.AAssociateRqPDU.decode(build_rq(ctxs).encode())
+    rq = pdu.AAssociateRqPDU.decode(build_rq(ctxs, *echo_fields(ctxs)).encode())
     acc.accept(rq)
     ac = pdu.AAssociateAcPDU.decode(acc.dul.sent[-1].encode())
     reported = [(i.context_id, i.result_reason, str(i.ts_sub_item.name)) for i in ac.variable_items[1:-1]]
@@ -86,8 +100,10 @@ def oracle(served, supported, ctxs, o):
             return 'contexts the acceptor will serve %r differ from those it reported as accepted %r' % (o['table'], want)
         if sorted(o['served']) != want:
             return 'contexts actually dispatched to a service %r differ from those reported as accepted %r' % (sorted(o['served']), want)
-    if o['titles'] != ('SRV', 'CLI') or o['appctx'] != '1.2.840.10008.3.1.1.1':
-        return 'reply does not repeat the AE titles / application context of the request: %r %r' % (o['titles'], o['appctx'])
+    called, calling, appctx = echo_fields(ctxs)
+    if o['titles'] != (called, calling) or o['appctx'] != appctx:
+        return ('reply does not repeat the AE titles / application context of the request: %r %r (request: %r %r)'
+                % (o['titles'], o['appctx'], (called, calling), appctx))
     return None
 
 
